@@ -239,3 +239,22 @@ Fixpoint edges (n : bnode) : list blk :=
     flat_map (fun c => mkBlk (nhash c) h (nnumber c) (narrival c) (nprimary c) :: edges c) ch
   end.
 Definition abs (t : btree) : sst := mkSst (nhash (root t)) (nnumber (root t)) (edges (root t)).
+
+(* used by the vm_compute cross-check of the drivers: the results of a history as the harness
+   prints them (add outcomes as class numbers, 0 = ok; pruned lists) compared with expected ones *)
+Definition res_code (r : opres) : N * list N :=
+  match r with
+  | RAdd (Ok _) => (0, [])
+  | RAdd (Err c) => (N.of_nat c, [])
+  | RAdd _ => (99, [])
+  | RFin p => (100, p)
+  end.
+Definition res_eqb (a b : N * list N) : bool := (fst a =? fst b) && list_eqb (snd a) (snd b).
+Fixpoint all2 {A} (e : A -> A -> bool) (l1 l2 : list A) : bool :=
+  match l1, l2 with
+  | [], [] => true
+  | x :: r, y :: s => e x y && all2 e r s
+  | _, _ => false
+  end.
+Definition run_matches (h x : N) (ops : list op) (expected : list (N * list N)) : bool :=
+  all2 res_eqb (map res_code (snd (run (new_tree h x 0%Z) ops))) expected.
